@@ -181,7 +181,11 @@ def _is_future_import_first(import_from):
     """
     found_docstring = False
     for stmt in _iter_stmts(import_from.get_root_node()):
-        if stmt.type == 'string' and not found_docstring:
+        if not found_docstring and (
+            stmt.type == 'string'
+            or stmt.type == 'strings' and all(c.type == 'string' for c in stmt.children)
+        ):
+            # A docstring, possibly written as implicitly concatenated literals.
             continue
         found_docstring = True
 
